@@ -651,7 +651,7 @@ func vkRun(o *vkOut, sc vkScenario, choose func(step int, el []int) int) (lines 
 		w.mu.Unlock()
 		if inFlight != "" && returned != "" && !flagged {
 			flagged = true
-			report("C09,C12,C13,C10", "Close returned ("+returned+") while the disposal of the scope is still in flight: "+inFlight)
+			report("C09,C11,C12,C13,C10", "Close returned ("+returned+") while the disposal of the scope is still in flight: "+inFlight)
 		}
 		running := 0
 		for _, f := range strings.Fields(snap) {
